@@ -104,6 +104,40 @@ theorem derive_preserves_checkers_and_classes (w : World) (hwf : WF w.heap) (ops
 example : kindAt initial.heap 12 = some .cls := by decide +kernel
 example : kindAt initial.heap 4 = some .tc := by decide +kernel
 
+/-! #### probes that read module-level state (`cls(schema)` seeds its resolver from `meta_schemas`) -/
+
+/-- the statement without the restriction to object-local queries -/
+def derive_preserves_all_probes_statement : Prop :=
+  ∀ (env : Env) (impl : FmtImpl) (fuel : Nat) (w : World), WF w.heap → ∀ (op : DOp) (a : Addr),
+    a < w.heap.length → (∀ t, op.touches = some t → t ∉ footprint w.heap a) → ∀ q : Derive.Query,
+    probe env impl fuel (step env w op).1 a q = probe env impl fuel w a q
+
+/-- … is false: `create(meta_schema={"$id": <draft-07 id>, "type": "number"}, …, version="y")` re-points
+    `meta_schemas[<draft-07 id>]`, after which `Draft7Validator({"$ref": <draft-07 id>}).is_valid(5)` is
+    `True` (it was `False`: 5 is not a schema).  The class object is untouched; the registry is not. -/
+theorem derive_preserves_all_probes_counterexample : ¬ derive_preserves_all_probes_statement := by
+  intro h
+  have := h env0 builtinImpl 10 initial wf_initial hijack 12 (by decide) (fun t ht => by cases ht) hijackQuery
+  have := congrArg Answer.asBool this
+  revert this
+  decide +kernel
+
+/-- … and holds for every operation that does not register a class (`version=None`) and is not
+    `cls_checks`: then registry-reading probes (validation by a class, registry keys) are preserved too. -/
+theorem derive_preserves_all_probes_partial (w : World) (hwf : WF w.heap)
+    (hreg : ∀ p ∈ w.metaSchemas, p.2 < w.heap.length) (op : DOp)
+    (hv : op.registers = false) (hcc : op.isClsChecks = false) (a : Addr) (ha : a < w.heap.length)
+    (hind : ∀ t, op.touches = some t → t ∉ footprint w.heap a) (q : Derive.Query) :
+    probe env impl fuel (step env w op).1 a q = probe env impl fuel w a q :=
+  probe_congr_reg env impl fuel q (step_view env w op hwf ha (fun t _ ht _ => hind t ht))
+    (step_regsOf env w op hwf hreg hv hcc)
+
+example : (∀ p ∈ initial.metaSchemas, p.2 < initial.heap.length)
+    ∧ (DOp.extend 12 (.lit [("foo".toList, .never)]) none none).registers = false := by
+  constructor
+  · decide +kernel
+  · rfl
+
 /-- Registering a format on one checker leaves every OTHER format checker (and every validator that
     does not use that checker) answering as before. -/
 theorem checks_affects_that_checker_only (w : World) (hwf : WF w.heap) (fc a : Addr) (name : Str) (fn : FFn)
@@ -243,6 +277,28 @@ theorem override_one_keyword_probes (w : World) (hwf : WF w.heap) (c : Addr) (k 
     show isTypeA cv'.types inst name _ = isTypeA cv.types inst name _; rw [hty]
   · show Answer.str cv'.idKey = Answer.str cv.idKey; rw [hid]
   · show Answer.json cv'.metaSchema = Answer.json cv.metaSchema; rw [hms]
+
+/-- … and so does validation, layer by layer: on every schema object that does not contain the key
+    `k`, one layer of `iter_errors` of the new class is the same function of the recursive call as the
+    parent's (whatever types / format checker the validating instance carries).  A validation that
+    never reaches a schema object containing `k` therefore cannot tell the two classes apart. -/
+theorem override_one_keyword_layer (w : World) (hwf : WF w.heap) (c : Addr) (k : Str) (f : KwFn)
+    (version : Option Str) (a : Addr)
+    (hr : (step env w (.extend c (.lit [(k, f)]) version none)).2 = .created a) :
+    let w' := (step env w (.extend c (.lit [(k, f)]) version none)).1
+    ∃ cv cv', viewCls w.heap c = some cv ∧ viewCls w'.heap a = some cv' ∧
+      ∀ (tys : List (Str × TyFn)) (fc : Option (List FEntry)) (rec : Rec) (inst : Json)
+        (kvs : List (Str × Json)), Json.lookup k kvs = none →
+        evalStep env impl (cfgOf cv' tys fc) rec inst (.obj kvs)
+          = evalStep env impl (cfgOf cv tys fc) rec inst (.obj kvs) := by
+  intro w'
+  rcases override_one_keyword env w hwf c k f version a hr with ⟨cv, cv', h0, _, h2, _, hne, _, hid, _⟩
+  refine ⟨cv, cv', h0, h2, ?_⟩
+  intro tys fc rec inst kvs hk
+  have e : cfgOf cv' tys fc = { cfgOf cv tys fc with keywords := cv'.kws } := by
+    simp only [cfgOf, hid]
+  rw [e]
+  exact evalStep_override env impl (cfgOf cv tys fc) cv'.kws k hne rec inst kvs hk
 
 /-! ### Validator(schema, types=…) -/
 
